@@ -85,22 +85,27 @@ func runC15(c *Ctx) {
 		N        int    // members
 		Offender int    // -1 none
 		CSize    int
-		Pre      int // objects stored before
+		Pre      int  // objects stored before
+		Reopen   bool // the handle is closed and re-opened before the call (schema loaded from disk)
 	}
 	var scens []scen
 	for pre := 0; pre <= 2; pre++ {
 		for _, off := range []int{-1, 0} {
-			scens = append(scens, scen{"single", 1, off, 0, pre})
+			scens = append(scens, scen{"single", 1, off, 0, pre, false})
 		}
 		maxN := 3
 		for n := 1; n <= maxN; n++ {
 			for off := -1; off < n; off++ {
-				scens = append(scens, scen{"many", n, off, 0, pre})
+				scens = append(scens, scen{"many", n, off, 0, pre, false})
 				for _, cs := range []int{1, 2} {
-					scens = append(scens, scen{"bulk", n, off, cs, pre})
+					scens = append(scens, scen{"bulk", n, off, cs, pre, false})
 				}
 			}
 		}
+	}
+	for _, sc := range append([]scen{}, scens...) {
+		sc.Reopen = true
+		scens = append(scens, sc)
 	}
 	item := 0
 	for _, cfg := range cfgs {
@@ -131,6 +136,20 @@ func runC15(c *Ctx) {
 							return
 						}
 						stored[h.UUID()] = jsonOf(expectHk(fmt.Sprintf("pre%d", i), fmt.Sprintf("pre%d", i), 0))
+					}
+					if sc.Reopen {
+						if err := db.Close(); err != nil {
+							fail("close", "Close failed: "+err.Error())
+							return
+						}
+						db = sod.Open(dbRoot)
+						w.DB = db
+						// load the collection now: the lazy load is a legitimate change of the handle
+						// and must not be taken for a modification made before Validate
+						if _, err := db.Count(&Hk{}); err != nil {
+							fail("reopen", "Count after re-opening failed: "+err.Error())
+							return
+						}
 					}
 					// build members
 					var objs []sod.Object
@@ -290,7 +309,7 @@ func runC15(c *Ctx) {
 		}
 	}
 	c.Meta(map[string]interface{}{
-		"rule":      "every insertion entry point (single, Many with the offender at each position or none, Bulk with chunk sizes 1 and 2) x 0..2 pre-stored objects x 4 name classes x 4 configurations, with a collection type whose Validate accepts only what Transform followed by the schema's case transforms produce; a recorder inside the hooks captures, at every hook call, the number of file mutations and a hash of the complete handle. Oracles: Transform precedes Validate per object, Validate observes canonical case, nothing is modified before the last Validate of a call (single/Many), stored = transformed, invalid => ErrInvalidObject and invisible through All/Get/Search. Non-trivial = scenarios with an offender or a case-mixed name.",
+		"rule":      "every insertion entry point (single, Many with the offender at each position or none, Bulk with chunk sizes 1 and 2) x 0..2 pre-stored objects x {same handle, handle closed and re-opened before the call} x 4 name classes x 4 configurations, with a collection type whose Validate accepts only what Transform followed by the schema's case transforms produce; a recorder inside the hooks captures, at every hook call, the number of file mutations and a hash of the complete handle. Oracles: Transform precedes Validate per object, Validate observes canonical case, nothing is modified before the last Validate of a call (single/Many), stored = transformed, invalid => ErrInvalidObject and invisible through All/Get/Search. Non-trivial = scenarios with an offender or a case-mixed name.",
 		"scenarios": len(scens), "configs": cfgs,
 	})
 }
